@@ -1,4 +1,4 @@
-SPECIFICATION Spec37
+SPECIFICATION Gen37
 INVARIANT StoredIsNewest Emit
 PROPERTY FlagRule
 CHECK_DEADLOCK FALSE
@@ -10,3 +10,4 @@ CONSTANTS
   RecTypes = {}
   MaxRecs = 0
   WithQuery = FALSE
+  DistinctTs = FALSE
